@@ -63,6 +63,13 @@ K05 = [
         "other/__init__.py": "",
         "main.py": "from pkg import bb\nimport pkg.aa\nprint(bb.use(), pkg.aa.fun())\n"}),
      lambda files: dict(api="move_module", path="pkg/aa.py", dest="other")),
+    (Skeleton("v09_move_module_aliased_from_import", {
+        "srcpkg/__init__.py": "",
+        "srcpkg/gadget.py": "{0} = 4\ndef spin({1}):\n    return {1} * {0}\n",
+        "srcpkg/sibling.py": "val = 1\n",
+        "dstpkg/__init__.py": "",
+        "main.py": "from srcpkg import gadget as {2}\nfrom srcpkg import sibling as {3}, gadget\nimport srcpkg.gadget\nprint({2}.spin(2), {3}.val, gadget.{0}, srcpkg.gadget.spin(1))\n"}),
+     lambda files: dict(api="move_module", path="srcpkg/gadget.py", dest="dstpkg")),
 ]
 
 
@@ -77,7 +84,9 @@ def make_run(p):
         return opf(cf)
 
     def run():
-        return bref.run_refactoring(s, build_op, PROPERTY, check_imports=True)
+        from harness.c05_replay import tags_of
+
+        return bref.run_refactoring(s, build_op, PROPERTY, check_imports=True, tagger=tags_of)
 
     return run
 
